@@ -27,15 +27,17 @@ def esc(text, sep, extra=""):
 
 def esc_key(text, sep, style="bs"):
     """Render key text.  style: 'bs' backslashes, 'q' quote demarcation where possible."""
-    if style == "q" and text and "'" not in text and '"' not in text and "\\" not in text:
+    # README documents demarcation for keys holding separators ("dotted Hash keys"); other specials
+    # (brackets, parentheses, quotes, ^ $ %) are only rendered with backslashes
+    if style == "q" and text and all(ch.isalnum() or ch in "./ _-" for ch in text) and text == text.strip():
         return "'" + text + "'"
     out = []
     for i, ch in enumerate(text):
-        if ch in "\\[]()'\"^$% " or ch == sep:
+        if ch in "\\[]()'\"^$% ./":
             out.append("\\" + ch)
-        elif ch in "&!" and i == 0:
+        elif ch in "&!=<>~,:+-" and (i == 0 or ch in "=<>~!"):
             out.append("\\" + ch)
-        elif ch in "*":
+        elif ch == "*":
             out.append("\\" + ch)
         else:
             out.append(ch)
@@ -50,7 +52,7 @@ def render_term(op, term):
         raise ValueError("no regex delimiter for %r" % term)
     out = []
     for ch in term:
-        if ch in "\\[]()'\" ":
+        if ch in "\\[]()'\" =^$%!<>~":
             out.append("\\" + ch)
         else:
             out.append(ch)
@@ -75,6 +77,8 @@ def render_seg(seg, sep, first, style="bs"):
     if t == "SEARCH":
         _, inv, op, attr, term = seg
         a = attr if attr == "." else esc_key(attr, "\0", "bs") if "." not in attr and "/" not in attr else attr
+        if inv and style == "q":
+            return "[!%s%s%s]" % (a, op, render_term(op, term)), False     # README: both forms are equivalent
         return "[%s%s%s%s]" % (a, "!" if inv else "", op, render_term(op, term)), False
     if t == "WILD":
         return seg[1], True
@@ -87,7 +91,8 @@ def render_seg(seg, sep, first, style="bs"):
         return "[%s%s(%s)]" % ("!" if inv else "", kw, ", ".join(params)), False
     if t == "COLL":
         _, op, inner = seg
-        return "%s(%s)" % (op, render(inner, sep, lead=False)), False
+        # the inner path is parsed on its own: in slash notation it must itself start with /
+        return "%s(%s)" % (op, render(inner, sep, lead=(sep == "/"))), False
     raise ValueError(seg)
 
 
